@@ -144,7 +144,7 @@ pub fn probes(terms: &[T]) -> Vec<(String, T, Option<(usize, BTreeMap<Name, Name
 
 type Fail = (String, String, String);
 
-fn fp(eg: &EGraph<Sym>) -> (usize, usize, usize, usize, usize) {
+fn fp<N: Analysis<Sym>>(eg: &EGraph<Sym, N>) -> (usize, usize, usize, usize, usize) {
     let p = eg.progress();
     (p.number_of_classes, p.number_of_live_classes, p.sum_of_slots, p.sum_of_symmetries, eg.total_number_of_nodes())
 }
@@ -249,6 +249,173 @@ fn shadow_probe_exec(ops: &[Op]) -> Exec {
     out
 }
 
+/// one history, then the probes (lookups first, insertions afterwards), on an e-graph with analysis N
+#[allow(clippy::type_complexity)]
+fn probe_run<N: Analysis<Sym> + Default>(h2: &[Op], pr2: &[(String, T, Option<(usize, BTreeMap<Name, Name>)>)], ex2: &[(bool, Vec<Name>)], terms2: &[T]) -> Result<(Vec<Fail>, u64, u64, u64, u64), String> {
+        let nm = Naming::Numeric;
+        let mut eg = EGraph::<Sym, N>::default();
+        let mut rec = Vec::new();
+        for op in h2 {
+            if let Err(site) = catch(|| apply_op(&mut eg, op, nm, &mut rec)) {
+                return Err(site);
+            }
+        }
+        let mut fails: Vec<Fail> = Vec::new();
+        let mut evals = 0u64;
+        let mut goals = 0u64;
+        let mut nontrivial = 0u64;
+        let base = fp(&eg);
+        let mut absent: Vec<usize> = Vec::new();
+        // phase 1: read-only lookups
+        let mut looked: Vec<Option<AppliedId>> = Vec::new();
+        for (i, (label, p, orig)) in pr2.iter().enumerate() {
+            evals += 1;
+            if label != "literal" {
+                nontrivial += 1;
+            }
+            let re = to_recexpr(p, nm);
+            let got = match catch(|| lookup_rec_expr(&re, &eg)) {
+                Ok(g) => g,
+                Err(site) => {
+                    fails.push(("panic".into(), format!("lookup_rec_expr({})", p.to_sexp()), site));
+                    looked.push(None);
+                    continue;
+                }
+            };
+            let (rep, nonred) = &ex2[i];
+            if got.is_some() != *rep {
+                fails.push(("lookup-iff-represented".into(), format!("{label} {}", p.to_sexp()), format!("lookup_rec_expr is {} but the term is {} by the reference closure", if got.is_some() { "Some" } else { "None" }, if *rep { "represented" } else { "not represented" })));
+            }
+            if !*rep {
+                goals |= 1;
+                absent.push(i);
+            } else if orig.is_none() {
+                goals |= 2;
+                if p.op == "lam" {
+                    goals |= 32;
+                }
+            }
+            if label.starts_with("shadowing") {
+                goals |= 16;
+            }
+            if let Some(a) = &got {
+                // slots of the result: free slots minus redundant
+                let want: BTreeSet<Slot> = nonred.iter().map(|n| slot_of(*n, nm)).collect();
+                let have: BTreeSet<Slot> = a.slots().iter().copied().collect();
+                if nonred.len() < p.fv().len() {
+                    goals |= 4;
+                }
+                if have != want {
+                    fails.push(("result-slots".into(), format!("{label} {}", p.to_sexp()), format!("lookup returned slots {have:?}, expected the free slots minus the redundant ones {want:?}")));
+                }
+                // renamings of a tracked term: lookup(tπ) == a_t·π
+                if let Some((k, ren)) = orig {
+                    let t = &terms2[*k];
+                    let at = &rec.iter().find(|(x, _)| x == t).unwrap().1;
+                    let names = t.fv_ordered();
+                    let to: Vec<Name> = names.iter().map(|n| ren[n]).collect();
+                    let sm = name_map(&names, &to, nm, nm);
+                    let want = at.apply_slotmap(&sm);
+                    if !eg.eq(a, &want) {
+                        fails.push(("lookup-not-equivariant".into(), format!("{label} {}", p.to_sexp()), format!("lookup gives {a:?}, the renamed original handle is {want:?}")));
+                    }
+                    let fa = eg.find_applied_id(at);
+                    if fa.slots().len() >= 2 {
+                        let sv: Vec<Slot> = fa.slots().iter().copied().collect();
+                        let sw: SlotMap = [(sv[0], sv[1]), (sv[1], sv[0])].into_iter().chain(sv[2..].iter().map(|s| (*s, *s))).collect();
+                        if eg.eq(&fa, &fa.apply_slotmap(&sw)) {
+                            goals |= 8;
+                        }
+                    }
+                }
+                // node-wise lookup agrees
+                let mut kids = Vec::new();
+                let mut ok = true;
+                for c in children(p) {
+                    match lookup_rec_expr(&to_recexpr(c, nm), &eg) {
+                        Some(x) => kids.push(x),
+                        None => ok = false,
+                    }
+                }
+                if ok {
+                    let mut it = kids.into_iter();
+                    let n = mk_node(p, nm, &mut || it.next().unwrap());
+                    match eg.lookup(&n) {
+                        Some(b) if eg.eq(a, &b) => {}
+                        other => fails.push(("lookup-disagrees".into(), format!("{label} {}", p.to_sexp()), format!("EGraph::lookup gives {other:?}, lookup_rec_expr {a:?}"))),
+                    }
+                }
+            }
+            looked.push(got);
+        }
+        if fp(&eg) != base {
+            fails.push(("lookup-modifies".into(), "lookups changed the progress measure or node count".into(), format!("{base:?} -> {:?}", fp(&eg))));
+        }
+        // phase 2: add_expr of represented probes creates nothing
+        for (i, (label, p, _)) in pr2.iter().enumerate() {
+            if !ex2[i].0 {
+                continue;
+            }
+            evals += 1;
+            let before = fp(&eg);
+            let re = to_recexpr(p, nm);
+            match catch(|| eg.add_expr(re)) {
+                Err(site) => fails.push(("panic".into(), format!("add_expr({})", p.to_sexp()), site)),
+                Ok(a) => {
+                    let after = fp(&eg);
+                    if after.0 != before.0 || after.4 != before.4 {
+                        fails.push(("add-creates".into(), format!("{label} {}", p.to_sexp()), format!("inserting an already represented term changed classes/nodes {before:?} -> {after:?}")));
+                    }
+                    if let Some(l) = &looked[i] {
+                        if !eg.eq(&a, l) {
+                            fails.push(("add-vs-lookup".into(), format!("{label} {}", p.to_sexp()), format!("add_expr gives {a:?}, lookup gave {l:?}")));
+                        }
+                    }
+                    let want: BTreeSet<Slot> = ex2[i].1.iter().map(|n| slot_of(*n, nm)).collect();
+                    let have: BTreeSet<Slot> = a.slots().iter().copied().collect();
+                    if have != want {
+                        fails.push(("result-slots".into(), format!("add_expr {label} {}", p.to_sexp()), format!("{have:?} vs {want:?}")));
+                    }
+                }
+            }
+        }
+        // phase 3: absent probes create something and look up afterwards
+        for i in absent {
+            let (label, p, _) = &pr2[i];
+            evals += 1;
+            let re = to_recexpr(p, nm);
+            let was_absent = lookup_rec_expr(&re, &eg).is_none();
+            let before = fp(&eg);
+            match catch(|| eg.add_expr(re.clone())) {
+                Err(site) => fails.push(("panic".into(), format!("add_expr({})", p.to_sexp()), site)),
+                Ok(a) => {
+                    let after = fp(&eg);
+                    if was_absent && after.0 == before.0 {
+                        fails.push(("add-creates-nothing".into(), format!("{label} {}", p.to_sexp()), "lookup said absent but insertion allocated no class".into()));
+                    }
+                    match lookup_rec_expr(&re, &eg) {
+                        Some(l) if eg.eq(&l, &a) => {}
+                        other => fails.push(("add-vs-lookup".into(), format!("after insertion {label} {}", p.to_sexp()), format!("lookup gives {other:?}, add_expr gave {a:?}"))),
+                    }
+                    // the invocation returned for a NEW term: its slots are the term's free slots minus the redundant
+                    // ones, and its map is keyed by exactly the slots of its class
+                    let want: BTreeSet<Slot> = ex2[i].1.iter().map(|n| slot_of(*n, nm)).collect();
+                    let have: BTreeSet<Slot> = a.slots().iter().copied().collect();
+                    if have != want {
+                        fails.push(("result-slots".into(), format!("add_expr of the new term {label} {}", p.to_sexp()), format!("returned {a:?}: slots {have:?} vs expected {want:?}")));
+                    }
+                    let keys: BTreeSet<Slot> = a.m.keys().iter().copied().collect();
+                    let cls: BTreeSet<Slot> = eg.slots(a.id).iter().copied().collect();
+                    if keys != cls && eg.is_alive(a.id) {
+                        fails.push(("malformed-invocation".into(), format!("add_expr of the new term {label} {}", p.to_sexp()), format!("returned {a:?} but its class has the slots {cls:?}")));
+                    }
+                }
+            }
+        }
+        let f = fnv_str(&format!("{:?}|{:?}", fp(&eg), looked.iter().map(|x| x.is_some()).collect::<Vec<_>>()));
+        Ok((fails, evals, goals, nontrivial, f))
+}
+
 impl Prop for CanonProp {
     fn id(&self) -> &'static str {
         "C09"
@@ -311,173 +478,14 @@ impl Prop for CanonProp {
         let expect = std::sync::Arc::new(expect);
         let pr = std::sync::Arc::new(pr);
         let terms = std::sync::Arc::new(terms);
-        for hist in variants(&ops, Flips::None) {
+        // a second pass with an analysis attached (a datum that changes on unions makes the rebuild take other paths)
+        let segname = segs[seg].seg.name.clone();
+        let analysis_too = ["MICRO", "SHARE", "SAME", "SELFX", "CASC", "CORE^2", "SELF^1", "A0^2"].iter().any(|p| segname.starts_with(p));
+        for (hist, pass) in variants(&ops, Flips::None).into_iter().flat_map(|h| if analysis_too { vec![(h.clone(), 0), (h, 1)] } else { vec![(h, 0)] }) {
             let h2 = hist.clone();
             let (pr2, ex2, terms2) = (pr.clone(), expect.clone(), terms.clone());
-            let r = fresh_thread(move || {
-                let nm = Naming::Numeric;
-                let mut eg = EGraph::<Sym>::default();
-                let mut rec = Vec::new();
-                for op in &h2 {
-                    if let Err(site) = catch(|| apply_op(&mut eg, op, nm, &mut rec)) {
-                        return Err(site);
-                    }
-                }
-                let mut fails: Vec<Fail> = Vec::new();
-                let mut evals = 0u64;
-                let mut goals = 0u64;
-                let mut nontrivial = 0u64;
-                let base = fp(&eg);
-                let mut absent: Vec<usize> = Vec::new();
-                // phase 1: read-only lookups
-                let mut looked: Vec<Option<AppliedId>> = Vec::new();
-                for (i, (label, p, orig)) in pr2.iter().enumerate() {
-                    evals += 1;
-                    if label != "literal" {
-                        nontrivial += 1;
-                    }
-                    let re = to_recexpr(p, nm);
-                    let got = match catch(|| lookup_rec_expr(&re, &eg)) {
-                        Ok(g) => g,
-                        Err(site) => {
-                            fails.push(("panic".into(), format!("lookup_rec_expr({})", p.to_sexp()), site));
-                            looked.push(None);
-                            continue;
-                        }
-                    };
-                    let (rep, nonred) = &ex2[i];
-                    if got.is_some() != *rep {
-                        fails.push(("lookup-iff-represented".into(), format!("{label} {}", p.to_sexp()), format!("lookup_rec_expr is {} but the term is {} by the reference closure", if got.is_some() { "Some" } else { "None" }, if *rep { "represented" } else { "not represented" })));
-                    }
-                    if !*rep {
-                        goals |= 1;
-                        absent.push(i);
-                    } else if orig.is_none() {
-                        goals |= 2;
-                        if p.op == "lam" {
-                            goals |= 32;
-                        }
-                    }
-                    if label.starts_with("shadowing") {
-                        goals |= 16;
-                    }
-                    if let Some(a) = &got {
-                        // slots of the result: free slots minus redundant
-                        let want: BTreeSet<Slot> = nonred.iter().map(|n| slot_of(*n, nm)).collect();
-                        let have: BTreeSet<Slot> = a.slots().iter().copied().collect();
-                        if nonred.len() < p.fv().len() {
-                            goals |= 4;
-                        }
-                        if have != want {
-                            fails.push(("result-slots".into(), format!("{label} {}", p.to_sexp()), format!("lookup returned slots {have:?}, expected the free slots minus the redundant ones {want:?}")));
-                        }
-                        // renamings of a tracked term: lookup(tπ) == a_t·π
-                        if let Some((k, ren)) = orig {
-                            let t = &terms2[*k];
-                            let at = &rec.iter().find(|(x, _)| x == t).unwrap().1;
-                            let names = t.fv_ordered();
-                            let to: Vec<Name> = names.iter().map(|n| ren[n]).collect();
-                            let sm = name_map(&names, &to, nm, nm);
-                            let want = at.apply_slotmap(&sm);
-                            if !eg.eq(a, &want) {
-                                fails.push(("lookup-not-equivariant".into(), format!("{label} {}", p.to_sexp()), format!("lookup gives {a:?}, the renamed original handle is {want:?}")));
-                            }
-                            let fa = eg.find_applied_id(at);
-                            if fa.slots().len() >= 2 {
-                                let sv: Vec<Slot> = fa.slots().iter().copied().collect();
-                                let sw: SlotMap = [(sv[0], sv[1]), (sv[1], sv[0])].into_iter().chain(sv[2..].iter().map(|s| (*s, *s))).collect();
-                                if eg.eq(&fa, &fa.apply_slotmap(&sw)) {
-                                    goals |= 8;
-                                }
-                            }
-                        }
-                        // node-wise lookup agrees
-                        let mut kids = Vec::new();
-                        let mut ok = true;
-                        for c in children(p) {
-                            match lookup_rec_expr(&to_recexpr(c, nm), &eg) {
-                                Some(x) => kids.push(x),
-                                None => ok = false,
-                            }
-                        }
-                        if ok {
-                            let mut it = kids.into_iter();
-                            let n = mk_node(p, nm, &mut || it.next().unwrap());
-                            match eg.lookup(&n) {
-                                Some(b) if eg.eq(a, &b) => {}
-                                other => fails.push(("lookup-disagrees".into(), format!("{label} {}", p.to_sexp()), format!("EGraph::lookup gives {other:?}, lookup_rec_expr {a:?}"))),
-                            }
-                        }
-                    }
-                    looked.push(got);
-                }
-                if fp(&eg) != base {
-                    fails.push(("lookup-modifies".into(), "lookups changed the progress measure or node count".into(), format!("{base:?} -> {:?}", fp(&eg))));
-                }
-                // phase 2: add_expr of represented probes creates nothing
-                for (i, (label, p, _)) in pr2.iter().enumerate() {
-                    if !ex2[i].0 {
-                        continue;
-                    }
-                    evals += 1;
-                    let before = fp(&eg);
-                    let re = to_recexpr(p, nm);
-                    match catch(|| eg.add_expr(re)) {
-                        Err(site) => fails.push(("panic".into(), format!("add_expr({})", p.to_sexp()), site)),
-                        Ok(a) => {
-                            let after = fp(&eg);
-                            if after.0 != before.0 || after.4 != before.4 {
-                                fails.push(("add-creates".into(), format!("{label} {}", p.to_sexp()), format!("inserting an already represented term changed classes/nodes {before:?} -> {after:?}")));
-                            }
-                            if let Some(l) = &looked[i] {
-                                if !eg.eq(&a, l) {
-                                    fails.push(("add-vs-lookup".into(), format!("{label} {}", p.to_sexp()), format!("add_expr gives {a:?}, lookup gave {l:?}")));
-                                }
-                            }
-                            let want: BTreeSet<Slot> = ex2[i].1.iter().map(|n| slot_of(*n, nm)).collect();
-                            let have: BTreeSet<Slot> = a.slots().iter().copied().collect();
-                            if have != want {
-                                fails.push(("result-slots".into(), format!("add_expr {label} {}", p.to_sexp()), format!("{have:?} vs {want:?}")));
-                            }
-                        }
-                    }
-                }
-                // phase 3: absent probes create something and look up afterwards
-                for i in absent {
-                    let (label, p, _) = &pr2[i];
-                    evals += 1;
-                    let re = to_recexpr(p, nm);
-                    let was_absent = lookup_rec_expr(&re, &eg).is_none();
-                    let before = fp(&eg);
-                    match catch(|| eg.add_expr(re.clone())) {
-                        Err(site) => fails.push(("panic".into(), format!("add_expr({})", p.to_sexp()), site)),
-                        Ok(a) => {
-                            let after = fp(&eg);
-                            if was_absent && after.0 == before.0 {
-                                fails.push(("add-creates-nothing".into(), format!("{label} {}", p.to_sexp()), "lookup said absent but insertion allocated no class".into()));
-                            }
-                            match lookup_rec_expr(&re, &eg) {
-                                Some(l) if eg.eq(&l, &a) => {}
-                                other => fails.push(("add-vs-lookup".into(), format!("after insertion {label} {}", p.to_sexp()), format!("lookup gives {other:?}, add_expr gave {a:?}"))),
-                            }
-                            // the invocation returned for a NEW term: its slots are the term's free slots minus the redundant
-                            // ones, and its map is keyed by exactly the slots of its class
-                            let want: BTreeSet<Slot> = ex2[i].1.iter().map(|n| slot_of(*n, nm)).collect();
-                            let have: BTreeSet<Slot> = a.slots().iter().copied().collect();
-                            if have != want {
-                                fails.push(("result-slots".into(), format!("add_expr of the new term {label} {}", p.to_sexp()), format!("returned {a:?}: slots {have:?} vs expected {want:?}")));
-                            }
-                            let keys: BTreeSet<Slot> = a.m.keys().iter().copied().collect();
-                            let cls: BTreeSet<Slot> = eg.slots(a.id).iter().copied().collect();
-                            if keys != cls && eg.is_alive(a.id) {
-                                fails.push(("malformed-invocation".into(), format!("add_expr of the new term {label} {}", p.to_sexp()), format!("returned {a:?} but its class has the slots {cls:?}")));
-                            }
-                        }
-                    }
-                }
-                let f = fnv_str(&format!("{:?}|{:?}", fp(&eg), looked.iter().map(|x| x.is_some()).collect::<Vec<_>>()));
-                Ok((fails, evals, goals, nontrivial, f))
-            });
+            let with_analysis = analysis_too && pass == 1;
+            let r = fresh_thread(move || if with_analysis { probe_run::<crate::props::inv::MinSizeReading>(&h2, &pr2, &ex2, &terms2) } else { probe_run::<()>(&h2, &pr2, &ex2, &terms2) });
             out.traces += 1;
             out.transitions += hist.len() as u64 + pr.len() as u64;
             let hs = hist.iter().map(|o| o.show()).collect::<Vec<_>>().join(" ; ");
